@@ -799,7 +799,15 @@ def _field_corners(fl):
         return sorted(c)
     if k in ("Fixed", "RemN"):
         n = fl["n"]
-        return [bytes(n), b"\xff" * n, b"\x80" + bytes(n - 1)]
+        out = [bytes(n), b"\xff" * n, b"\x80" + bytes(n - 1)]
+        if n == 16:
+            # IPv6 text forms: zero runs at the start / end / middle / twice, embedded IPv4
+            for t in ("::1", "1::", "::ffff:1.2.3.4", "2001:db8::", "0:0:1::", "a:0:0:b:0:0:0:c", "a:0:0:0:b:0:0:c", "64:ff9b::c000:201",
+                      "1:2:3:4:5:6:7:8", "1:0:3:4:5:6:7:8", "::1.2.3.4", "fe80::1:0:0:1", "0:1::", "1:2:3:4:5:6:7::", "::2:3:4:5:6:7:8"):
+                out.append(socket.inet_pton(socket.AF_INET6, t))
+        if n == 4:
+            out += [bytes([1, 2, 3, 4]), bytes([10, 0, 0, 255]), bytes([0, 0, 0, 1]), bytes([255, 0, 255, 0])]
+        return out
     if k == "Counted":
         lo, hi = fl["lo"], fl["hi"]
         lens = sorted({lo, min(hi, lo + 1), min(hi, 127), min(hi, 128), min(hi, 255), min(hi, 256), min(hi, 1024)})
